@@ -9,6 +9,7 @@ import (
 	"context"
 	"encoding/json"
 	"fmt"
+	"io"
 	"net/http"
 	"net/http/httptest"
 	"reflect"
@@ -111,6 +112,31 @@ func concServe(p *Pkg, c *Case) string {
 	return fmt.Sprintf("conc n=%d served=%d diffs=0", n, total)
 }
 
+// hasReader: does the value contain a set io.Reader (a stream that one call consumes)?
+func hasReader(v reflect.Value) bool {
+	switch v.Kind() {
+	case reflect.Interface:
+		if v.IsNil() {
+			return false
+		}
+		if _, ok := v.Interface().(io.Reader); ok {
+			return true
+		}
+		return hasReader(v.Elem())
+	case reflect.Struct:
+		for i := 0; i < v.NumField(); i++ {
+			if hasReader(v.Field(i)) {
+				return true
+			}
+		}
+	case reflect.Pointer:
+		if !v.IsNil() {
+			return hasReader(v.Elem())
+		}
+	}
+	return false
+}
+
 // ---- client side: one API, one Client, concurrent seeded calls
 
 type callSlot struct {
@@ -135,7 +161,7 @@ func concClient(p *Pkg, c *Case) string {
 	if p.NewClient == nil {
 		return "no-client"
 	}
-	mk := func() func(ca opArgs) string {
+	mk := func(own bool) func(ca opArgs, pre *reflect.Value) string {
 		apiPtr := reflect.ValueOf(p.NewAPI())
 		api := apiPtr.Elem()
 		at := api.Type()
@@ -184,7 +210,11 @@ func concClient(p *Pkg, c *Case) string {
 			}))
 		}
 		cl := newClientFor(p, apiPtr, passThrough{api: apiPtr.Interface().(http.Handler)})
-		one := func(ca opArgs) string {
+		if own {
+			// the in-process client exactly as goag wires it, its own transport included
+			cl = apiPtr.Elem().MethodByName("LocalClient").Call(nil)[0]
+		}
+		one := func(ca opArgs, pre *reflect.Value) string {
 			field, _, ok := findOp(p, ca.Method, ca.Path)
 			if !ok {
 				return "no-such-op"
@@ -195,8 +225,14 @@ func concClient(p *Pkg, c *Case) string {
 			}
 			sl := &callSlot{a: ca}
 			reqV := reflect.New(m.Type().In(1)).Elem()
-			fillParams(reqV, &rnd{s: ca.Seed})
-			snapshotBodies(reqV)
+			if pre != nil {
+				// ONE request value handed to many concurrent calls (a caller may do that: the client
+				// only has to read it)
+				reqV = *pre
+			} else {
+				fillParams(reqV, &rnd{s: ca.Seed})
+				snapshotBodies(reqV)
+			}
 			sent := "ok" + dumpParamsBodies(reqV)
 			var res []reflect.Value
 			var perr any
@@ -223,11 +259,29 @@ func concClient(p *Pkg, c *Case) string {
 		return "concclient n=0"
 	}
 	seq := make([]string, n)
-	one := mk()
+	one := mk(false)
 	for i := range a.Calls {
-		seq[i] = one(a.Calls[i])
+		seq[i] = one(a.Calls[i], nil)
 	}
-	one = mk() // fresh API + client for the concurrent phase
+	one = mk(true) // fresh API + its own LocalClient for the concurrent phase
+	// request values without stream bodies are built once and shared by all goroutines
+	shared := make([]*reflect.Value, n)
+	for i, ca := range a.Calls {
+		field, _, ok := findOp(p, ca.Method, ca.Path)
+		if !ok {
+			continue
+		}
+		cm, ok2 := reflect.TypeOf(p.NewClient).Out(0).MethodByName(strings.TrimSuffix(field, "Handler"))
+		if !ok2 {
+			continue
+		}
+		reqV := reflect.New(cm.Type.In(2)).Elem()
+		fillParams(reqV, &rnd{s: ca.Seed})
+		if hasReader(reqV) {
+			continue
+		}
+		shared[i] = &reqV
+	}
 	var mu sync.Mutex
 	ndiff := 0
 	first := ""
@@ -241,7 +295,7 @@ func concClient(p *Pkg, c *Case) string {
 			for r := 0; r < a.Rounds; r++ {
 				for k := 0; k < n; k++ {
 					i := (k*5 + w*3 + r) % n
-					got := one(a.Calls[i])
+					got := one(a.Calls[i], shared[i])
 					if got != seq[i] {
 						mu.Lock()
 						if ndiff == 0 {
